@@ -263,18 +263,56 @@ def run(F, R, tier):
     r7.floor(3)
 
 
+def _header_value(F, ty, present, tag):
+    """a header struct value with exactly the members in `present` set (to opaque values), every other Option member None"""
+    f = {}
+    for fd in F.adt_fields(ty) or []:
+        nm = fd["name"]
+        if nm == "common":
+            f[nm] = _header_value(F, JWTH, present, tag)
+        elif nm == "custom":
+            f[nm] = sym.V("Some", (sym.Sym(("param", tag + "_custom")),)) if "custom" in present else sym.V("None")
+        else:
+            f[nm] = sym.V("Some", (sym.Sym(("param", tag + "_" + nm)),)) if nm in present else sym.V("None")
+    return sym.St(ty, f)
+
+
+def _eval_bool(F, fn, args, opaque=None):
+    try:
+        ps = sym.Evaluator(F, opaque=opaque, inline_depth=5).explore(fn, args=args, max_paths=200)
+    except (sym.Abort, sym.TooManyPaths) as e:
+        return None, str(e)
+    vals = {q.ret for q in ps if q.complete and isinstance(q.ret, bool)}
+    if len(vals) == 1 and all(q.complete and isinstance(q.ret, bool) for q in ps):
+        return vals.pop(), None
+    return None, "not a single decided boolean: %s" % sorted(str(q.ret) for q in ps)[:3]
+
+
 def _disjoint_rules(F, r4):
-    # ---- JwtHeader::is_disjoint: one `self.f.is_some() && other.f.is_some()` disjunct per field
+    # ---- is_disjoint, evaluated on concrete headers: with exactly one member f set in self and exactly one member g set in other the
+    #      answer is (f != g), for every pair of members — whatever the expression looks like
     fields = [f["name"] for f in (F.adt_fields(JWTH) or [])]
     r4.require(len(fields) >= 12, (JWTH, "fields"), "JwtHeader has %d fields, expected at least the 12 confirmed" % len(fields))
     fn = JWTH + "::is_disjoint"
-    h = F.hir(fn)
-    if r4.anchor(h, fn):
-        env = H.Env(h)
-        covered = _dup_pairs(h, env, r4, fn)
+    if r4.anchor(F.hir(fn), fn):
+        bad = 0
         for f in fields:
-            r4.require(f in covered, (fn, "field", f), "JwtHeader::is_disjoint does not compare field `%s` of self and other" % f)
-        _returns_not_dup(h, env, r4, fn)
+            for g in fields:
+                v, why = _eval_bool(F, fn, [_header_value(F, JWTH, {f}, "s"), _header_value(F, JWTH, {g}, "o")])
+                if v is None:
+                    r4.fail((fn, "not-evaluable"), "JwtHeader::is_disjoint could not be evaluated on concrete headers: %s" % why)
+                    bad += 1
+                    break
+                if f == g and v is not False:
+                    bad += 1
+                    r4.fail((fn, "field", f), "JwtHeader::is_disjoint does not compare field `%s` of self and other (both set → %s)" % (f, v))
+                if f != g and v is not True:
+                    bad += 1
+                    r4.fail((fn, "has_duplicate"), "JwtHeader::is_disjoint reports a clash between different members (%s in self, %s in other)" % (f, g))
+        v, why = _eval_bool(F, fn, [_header_value(F, JWTH, set(), "s"), _header_value(F, JWTH, set(fields), "o")])
+        r4.require(v is True, (fn, "has_duplicate"), "JwtHeader::is_disjoint(empty, full) is not true")
+        for f in fields:
+            r4.site("JwtHeader::is_disjoint: `%s` set in both → false; set in one only → true" % f)
     # ---- JwtHeader::has: one arm per serde name
     a = F.ast_item(JWTH)
     fn = JWTH + "::has"
@@ -308,41 +346,43 @@ def _disjoint_rules(F, r4):
         if "_" in arms:
             lits = H.literals(arms["_"][2]["body"])
             r4.require(lits == [False], (fn, "default"), "JwtHeader::has default arm is not `false`")
-    # ---- JwsHeader::is_disjoint
-    fn = JWSH + "::is_disjoint"
-    h = F.hir(fn)
+    # ---- JwsHeader::is_disjoint on concrete headers: own members (alg, b64), the common JwtHeader members, and the custom maps
     jfields = [f["name"] for f in (F.adt_fields(JWSH) or [])]
-    if r4.anchor(h, fn):
-        env = H.Env(h)
-        covered = _dup_pairs(h, env, r4, fn)
-        for f in ("alg", "b64"):
-            r4.require(f in covered, (fn, "field", f), "JwsHeader::is_disjoint does not compare `%s` of self and other" % f)
+    fn = JWSH + "::is_disjoint"
+    if r4.anchor(F.hir(fn), fn):
         r4.require(set(jfields) == {"common", "alg", "b64", "custom"}, (JWSH, "fields"),
                    "JwsHeader fields changed to %s: is_disjoint/has coverage must be re-established" % jfields)
-        tails = [n for n, _ in H.exits(h)]
-        ok_common = ok_custom = ok_not = False
-        for t in tails:
-            for cj in H.conjuncts(t):
-                inner, neg = H.negated(cj)
-                inner = H.strip(inner)
-                if neg and inner.get("k") == "path" and inner.get("res", {}).get("local") == "has_duplicate":
-                    ok_not = True
-                if inner.get("k") in ("mcall", "call") and not neg:
-                    nm = H.fn_name(inner) or ""
-                    args = H.call_args(inner)
-                    if nm == JWTH + "::is_disjoint":
-                        o0 = H.origins(args[0], env)
-                        o1 = H.origins(args[1], env, extra=re.compile(r"JoseHeader::common$|JwsHeader as .*JoseHeader>::common$"))
-                        ok_common = any(o[:3] == ("param", "self", "common") for o in o0) and any(o[:2] == ("param", "other") for o in o1)
-                        r4.site("JwsHeader::is_disjoint ∧ common.is_disjoint(other.common)", inner["sp"])
-                    if nm == JWSH + "::is_custom_disjoint":
-                        o0 = H.origins(args[0], env)
-                        o1 = H.origins(args[1], env)
-                        ok_custom = any(o[:2] == ("param", "self") for o in o0) and any(o[:2] == ("param", "other") for o in o1)
-                        r4.site("JwsHeader::is_disjoint ∧ is_custom_disjoint(other)", inner["sp"])
-        r4.require(ok_not, (fn, "not-dup"), "JwsHeader::is_disjoint result does not include `!has_duplicate`")
-        r4.require(ok_common, (fn, "common"), "JwsHeader::is_disjoint result does not include `self.common.is_disjoint(other.common())`")
-        r4.require(ok_custom, (fn, "custom"), "JwsHeader::is_disjoint result does not include `self.is_custom_disjoint(other)`")
+        own = [f for f in jfields if f not in ("common", "custom")]
+        allm = own + fields
+        OPQ_ = r"JwsHeader::is_custom_disjoint$"
+        for f in allm:
+            for g in allm:
+                v, why = _eval_bool(F, fn, [_header_value(F, JWSH, {f}, "s"), _header_value(F, JWSH, {g}, "o")])
+                if v is None:
+                    r4.fail((fn, "not-evaluable"), "JwsHeader::is_disjoint could not be evaluated on concrete headers: %s" % why)
+                    break
+                if f == g:
+                    key = (fn, "field", f) if f in own else (fn, "common")
+                    r4.require(v is False, key, "JwsHeader::is_disjoint does not compare `%s` of self and other (both set → %s)" % (f, v))
+                else:
+                    r4.require(v is True, (fn, "not-dup"), "JwsHeader::is_disjoint reports a clash between different members (%s / %s)" % (f, g))
+        # the custom maps: the verdict of is_custom_disjoint is part of the conjunction
+        try:
+            ps = sym.Evaluator(F, opaque=OPQ_, inline_depth=5).explore(fn, args=[_header_value(F, JWSH, {"custom"}, "s"), _header_value(F, JWSH, {"custom"}, "o")])
+        except (sym.Abort, sym.TooManyPaths):
+            ps = []
+        okc = bool(ps)
+        for q in ps:
+            cd = q.calls(OPQ_)
+            if not (q.complete and len(cd) == 1):
+                okc = False
+                continue
+            if q.succeeded(cd[0]) is False:
+                okc = okc and q.ret is False
+            elif q.succeeded(cd[0]) is True:
+                okc = okc and q.ret is True
+        r4.require(okc, (fn, "custom"), "JwsHeader::is_disjoint result does not include `self.is_custom_disjoint(other)`")
+        r4.site("JwsHeader::is_disjoint: alg, b64 and every common member compared; custom maps through is_custom_disjoint: %s" % okc)
     # ---- JwsHeader::has
     fn = JWSH + "::has"
     h = F.hir(fn)
@@ -385,30 +425,34 @@ def _disjoint_rules(F, r4):
                 r4.require(shared is not True, (fn, "shared-key"), "is_custom_disjoint does not return false when a key of self.custom is contained in other.custom")
         r4.site("is_custom_disjoint: shared key → false; otherwise true")
         r4.require(shared_false or not tab.paths, (fn, "iter"), "is_custom_disjoint never compares the custom keys of the two headers")
-    # ---- validate_disjoint decision
+    # ---- validate_disjoint on its decision table: both headers present → Ok exactly when is_disjoint(protected, unprotected) is true;
+    #      one absent → Ok
     fn = SER + "::validate_disjoint"
-    h = F.hir(fn)
-    if r4.anchor(h, fn):
-        env = H.Env(h)
-        m = H.find_first(h, lambda n: n.get("k") == "match" and n.get("src") == "normal")
-        if r4.require(m is not None, (fn, "table"), "validate_disjoint decision table not found"):
-            for arm in m["arms"]:
-                ps = H.pat_str(arm["pat"])
-                if ps == "(Some(_), Some(_))":
-                    fns = H.called_fns(arm["body"])
-                    r4.require(JWSH + "::is_disjoint" in fns, (fn, "both"), "validate_disjoint does not call JwsHeader::is_disjoint when both headers are present")
-                    r4.site("validate_disjoint (Some,Some) → is_disjoint", arm["body"].get("sp"))
-        # if is_disjoint {Ok} else {Err}
-        for n, oc in H.exits(h):
-            pass
-        tree, infos = L.exit_infos(h)
-        for e in infos:
-            conds = [(c[2], H.strip(c[1]).get("res", {}).get("local")) for c in e.conds if c[0] == "if"]
-            if L.is_success_exit(e):
-                r4.require((True, "is_disjoint") in conds, (fn, "ok-cond"), "validate_disjoint returns Ok without is_disjoint being true")
+    if r4.anchor(F.hir(fn), fn):
+        tab = SR.Table(F, fn, opaque=r"JwsHeader::is_disjoint$", rule=r4)
+        PRO, UNP = SR.param("protected"), SR.param("unprotected")
+        rows = set()
+        for q in tab.paths:
+            both = q.variant.get(PRO) == "Some" and q.variant.get(UNP) == "Some"
+            dj = q.calls(r"JwsHeader::is_disjoint$")
+            ok = SR.is_success(q.ret) and not SR.is_failure(q.ret)
+            if both:
+                good = len(dj) == 1 and {sym.term(dj[0].args[0]), sym.term(dj[0].args[1])} == {("payload", PRO, "Some", 0), ("payload", UNP, "Some", 0)}
+                if not r4.require(good, (fn, "both"), "validate_disjoint does not call JwsHeader::is_disjoint(protected, unprotected) when both headers are present"):
+                    continue
+                v = q.succeeded(dj[0])
+                if ok:
+                    r4.require(v is True, (fn, "ok-cond"), "validate_disjoint returns Ok without is_disjoint being true")
+                    rows.add("both-ok")
+                else:
+                    r4.require(v is False, (fn, "err-cond"), "validate_disjoint's error exit is not the !is_disjoint branch")
+                    rows.add("both-err")
             else:
-                r4.require((False, "is_disjoint") in conds, (fn, "err-cond"), "validate_disjoint's error exit is not the !is_disjoint branch")
-            r4.site("validate_disjoint exit %s under %s" % (e.outcome, conds), e.node.get("sp"))
+                r4.require(ok or (q.variant.get(PRO) is None or q.variant.get(UNP) is None), (fn, "table"), "validate_disjoint rejects although one header is absent")
+                if ok:
+                    rows.add("one-absent-ok")
+        r4.site("validate_disjoint rows: %s" % sorted(rows))
+        r4.require({"both-ok", "both-err", "one-absent-ok"} <= rows or not tab.paths, (fn, "table"), "validate_disjoint does not show the rows (both, disjoint → Ok), (both, clash → Err), (one absent → Ok): %s" % sorted(rows))
     r4.floor(30)
 
 
